@@ -21,7 +21,12 @@ CONSTANTS Callers,      \* set of caller ids (each makes at most one call)
                         \*       is acquired (repaired design); FALSE: on the state object the
                         \*       caller captured before waiting for the lock (original code)
           StartStates,  \* states the transfer may start in
-          Dirs          \* subset of {"up", "down"}
+          Dirs,         \* subset of {"up", "down"}
+          Lst2Kinds,    \* behaviours of an application listener registered behind the manager:
+                        \*   "none" (returns at once), "raise" (raises), "slow" (suspends; the
+                        \*   caller may be cancelled meanwhile - time-out, shutdown)
+          WithLoad      \* TRUE: the transfer may start as a stored record that read_cache
+                        \*       corrects before anybody listens (transfer/manager.py:150-170)
 
 States == {"VIRGIN", "QUEUED", "INITIALIZING", "INCOMPLETE", "DOWNLOADING", "UPLOADING",
            "COMPLETE", "FAILED", "ABORTED", "PAUSED"}
@@ -77,10 +82,14 @@ VARIABLES
   op,         \* per caller: requested operation
   cap,        \* per caller: state value captured when the call was made
   isTask,     \* per caller: the call is made from the transfer's own (cancellable) task
-  ret,        \* per caller: "none", "true", "false"
-  lastEdge    \* the last reported (old, new) pair, or <<>>
+  ret,        \* per caller: "none", "true", "false", "raised" (exception out of a listener /
+              \*   cancellation inside one: the transition itself has happened)
+  lastEdge,   \* the last reported (old, new) pair, or <<>>
+  lst2,       \* behaviour of the application listener (fixed per behaviour)
+  loaded      \* FALSE: still a stored record nobody listens to (read_cache not done)
 
-vars == <<dir, st, file, failR, abortR, bg, bgCancelled, holder, waitq, pc, op, cap, isTask, ret, lastEdge>>
+vars == <<dir, st, file, failR, abortR, bg, bgCancelled, holder, waitq, pc, op, cap, isTask, ret, lastEdge,
+          lst2, loaded>>
 
 Init ==
   /\ dir \in Dirs
@@ -98,6 +107,25 @@ Init ==
   /\ isTask = [c \in Callers |-> FALSE]
   /\ ret = [c \in Callers |-> "none"]
   /\ lastEdge = <<>>
+  /\ lst2 \in Lst2Kinds
+  /\ loaded \in (IF WithLoad THEN BOOLEAN ELSE {TRUE})
+  /\ loaded \/ ~bg                          \* a stored record has no task
+
+\* read_cache (transfer/manager.py:150-170): a stored INITIALIZING record is queued again, a
+\* stored transferring one becomes COMPLETE or INCOMPLETE depending on the byte counts - by
+\* direct assignment (or a state method) BEFORE the transfer is added to the manager, i.e. while
+\* it has no listener at all.  Nobody can observe the change; the state the listeners know from
+\* the TransferAddedEvent on is the corrected one.  `allBytes` is the environment's choice.
+Corrected(s, allBytes) ==
+  IF s = "INITIALIZING" THEN "QUEUED"
+  ELSE IF s \in {"DOWNLOADING", "UPLOADING"} THEN (IF allBytes THEN "COMPLETE" ELSE "INCOMPLETE")
+  ELSE s
+
+Load ==
+  /\ ~loaded
+  /\ loaded' = TRUE
+  /\ \E allBytes \in BOOLEAN : st' = Corrected(st, allBytes)
+  /\ UNCHANGED <<dir, file, failR, abortR, bg, bgCancelled, holder, waitq, pc, op, cap, isTask, ret, lastEdge, lst2>>
 
 \* The state object whose method body runs for caller c.
 Eff(c) == IF Redispatch THEN st ELSE cap[c]
@@ -106,6 +134,7 @@ Eff(c) == IF Redispatch THEN st ELSE cap[c]
 \* wrapper waits for the lock.  An uncontended asyncio.Lock is acquired without suspending.
 Call(c, o, t) ==
   /\ pc[c] = "idle"
+  /\ loaded
   /\ t => o \notin {"abort", "pause"}   \* the transfer's own task never aborts/pauses itself
   /\ op' = [op EXCEPT ![c] = o]
   /\ cap' = [cap EXCEPT ![c] = st]
@@ -113,14 +142,14 @@ Call(c, o, t) ==
   /\ IF holder = 0 /\ waitq = <<>>
        THEN /\ holder' = c /\ pc' = [pc EXCEPT ![c] = "body"] /\ UNCHANGED waitq
        ELSE /\ waitq' = Append(waitq, c) /\ pc' = [pc EXCEPT ![c] = "waiting"] /\ UNCHANGED holder
-  /\ UNCHANGED <<dir, st, file, failR, abortR, bg, bgCancelled, ret, lastEdge>>
+  /\ UNCHANGED <<dir, st, file, failR, abortR, bg, bgCancelled, ret, lastEdge, lst2, loaded>>
 
 \* asyncio.Lock is FIFO: release wakes the first waiter; later arrivals queue behind it.
 Acquire(c) ==
   /\ holder = 0 /\ waitq # <<>> /\ Head(waitq) = c
   /\ holder' = c /\ waitq' = Tail(waitq)
   /\ pc' = [pc EXCEPT ![c] = "body"]
-  /\ UNCHANGED <<dir, st, file, failR, abortR, bg, bgCancelled, op, cap, isTask, ret, lastEdge>>
+  /\ UNCHANGED <<dir, st, file, failR, abortR, bg, bgCancelled, op, cap, isTask, ret, lastEdge, lst2, loaded>>
 
 \* base-class method: log and return False; the lock is released in the same stretch.
 Refuse(c) ==
@@ -129,7 +158,7 @@ Refuse(c) ==
   /\ ret' = [ret EXCEPT ![c] = "false"]
   /\ pc' = [pc EXCEPT ![c] = "done"]
   /\ holder' = 0
-  /\ UNCHANGED <<dir, st, file, failR, abortR, bg, bgCancelled, waitq, op, cap, isTask, lastEdge>>
+  /\ UNCHANGED <<dir, st, file, failR, abortR, bg, bgCancelled, waitq, op, cap, isTask, lastEdge, lst2, loaded>>
 
 \* Callers that are the transfer's own task and are still waiting for the lock.
 WaitingTasks == {x \in Callers : isTask[x] /\ pc[x] = "waiting"}
@@ -144,7 +173,7 @@ BodyStart(c) ==
             /\ pc' = [pc EXCEPT ![c] = "cancelwait"]
        ELSE /\ pc' = [pc EXCEPT ![c] = IF RemovesFile(Eff(c), op[c], dir) /\ file THEN "rmfile" ELSE "trans"]
             /\ UNCHANGED bgCancelled
-  /\ UNCHANGED <<dir, st, file, failR, abortR, bg, holder, waitq, op, cap, isTask, ret, lastEdge>>
+  /\ UNCHANGED <<dir, st, file, failR, abortR, bg, holder, waitq, op, cap, isTask, ret, lastEdge, lst2, loaded>>
 
 \* environment: the cancelled tasks have really ended (CancelledError delivered to lock waiters)
 TasksGone(c) ==
@@ -154,16 +183,22 @@ TasksGone(c) ==
   /\ pc' = [x \in Callers |-> IF x \in WaitingTasks THEN "cancelled"
                               ELSE IF x = c THEN (IF RemovesFile(Eff(c), op[c], dir) /\ file THEN "rmfile" ELSE "trans")
                               ELSE pc[x]]
-  /\ UNCHANGED <<dir, st, file, failR, abortR, holder, op, cap, isTask, ret, lastEdge>>
+  /\ UNCHANGED <<dir, st, file, failR, abortR, holder, op, cap, isTask, ret, lastEdge, lst2, loaded>>
 
 \* _remove_local_file: exists + remove run in the executor (suspends)
 FileGone(c) ==
   /\ pc[c] = "rmfile"
   /\ file' = FALSE
   /\ pc' = [pc EXCEPT ![c] = "trans"]
-  /\ UNCHANGED <<dir, st, failR, abortR, bg, bgCancelled, holder, waitq, op, cap, isTask, ret, lastEdge>>
+  /\ UNCHANGED <<dir, st, failR, abortR, bg, bgCancelled, holder, waitq, op, cap, isTask, ret, lastEdge, lst2, loaded>>
 
-\* Transfer.transition + return True + lock release
+\* Transfer.transition (model.py:222-237): the new state is installed, then the listeners are
+\* awaited one after the other - the manager first, the application's listener behind it.
+\*   "none"  : the listener returns; return True + lock release in the same stretch
+\*   "raise" : the exception propagates through the state method to the caller; the lock is
+\*             released by `async with`; the state stays the new one (the listeners in front
+\*             have been told)
+\*   "slow"  : the caller is suspended inside the notification, still holding the lock
 Transition(c) ==
   /\ pc[c] = "trans" /\ holder = c
   /\ LET new == Target(op[c], dir) IN
@@ -173,14 +208,37 @@ Transition(c) ==
                    ELSE IF op[c] = "queue" /\ Eff(c) \in {"FAILED", "ABORTED"} THEN FALSE ELSE failR
        /\ abortR' = IF op[c] = "abort" THEN TRUE
                     ELSE IF op[c] = "queue" /\ Eff(c) \in {"FAILED", "ABORTED"} THEN FALSE ELSE abortR
+  /\ IF lst2 = "slow"
+       THEN /\ pc' = [pc EXCEPT ![c] = "lstwait"]
+            /\ UNCHANGED <<ret, holder>>
+       ELSE /\ ret' = [ret EXCEPT ![c] = IF lst2 = "raise" THEN "raised" ELSE "true"]
+            /\ pc' = [pc EXCEPT ![c] = "done"]
+            /\ holder' = 0
+  /\ UNCHANGED <<dir, file, bg, bgCancelled, waitq, op, cap, isTask, lst2, loaded>>
+
+\* the slow listener returns: return True + lock release
+ListenerDone(c) ==
+  /\ pc[c] = "lstwait" /\ holder = c
   /\ ret' = [ret EXCEPT ![c] = "true"]
   /\ pc' = [pc EXCEPT ![c] = "done"]
   /\ holder' = 0
-  /\ UNCHANGED <<dir, file, bg, bgCancelled, waitq, op, cap, isTask>>
+  /\ UNCHANGED <<dir, st, file, failR, abortR, bg, bgCancelled, waitq, op, cap, isTask, lastEdge, lst2, loaded>>
+
+\* environment: the caller is cancelled while the slow listener is awaited (a time-out around
+\* the API call, the application shutting down).  CancelledError leaves through the state
+\* method; the state stays the new one.
+CancelInListener(c) ==
+  /\ pc[c] = "lstwait" /\ holder = c
+  /\ ret' = [ret EXCEPT ![c] = "raised"]
+  /\ pc' = [pc EXCEPT ![c] = "done"]
+  /\ holder' = 0
+  /\ UNCHANGED <<dir, st, file, failR, abortR, bg, bgCancelled, waitq, op, cap, isTask, lastEdge, lst2, loaded>>
 
 Next ==
   \/ \E c \in Callers, o \in Ops, t \in BOOLEAN : Call(c, o, t)
   \/ \E c \in Callers : Acquire(c) \/ Refuse(c) \/ BodyStart(c) \/ TasksGone(c) \/ FileGone(c) \/ Transition(c)
+  \/ \E c \in Callers : ListenerDone(c) \/ CancelInListener(c)
+  \/ Load
 
 Spec == Init /\ [][Next]_vars
 
@@ -190,17 +248,30 @@ Spec == Init /\ [][Next]_vars
 TypeOK ==
   /\ st \in States /\ dir \in {"up", "down"}
   /\ holder \in Callers \cup {0}
-  /\ \A c \in Callers : pc[c] \in {"idle", "waiting", "body", "cancelwait", "rmfile", "trans", "done", "cancelled"}
+  /\ \A c \in Callers : pc[c] \in {"idle", "waiting", "body", "cancelwait", "rmfile", "trans", "lstwait", "done",
+                                   "cancelled"}
+  /\ \A c \in Callers : ret[c] \in {"none", "true", "false", "raised"}
+  /\ lst2 \in {"none", "raise", "slow"} /\ loaded \in BOOLEAN
 
-\* Every observable change is an edge of the documented graph.
-LegalEdges == [][st' # st => <<st, st'>> \in Edge]_vars
+\* Every observable change is an edge of the documented graph.  (The correction of a stored
+\* record by Load happens before the transfer has any listener: not observable.)
+LegalEdges == [][(loaded /\ st' # st) => <<st, st'>> \in Edge]_vars
+
+\* What read_cache hands to the listeners is never a state that needs a live task/connection.
+LoadedIsSettled == [][(~loaded /\ loaded') => st' \notin {"INITIALIZING", "DOWNLOADING", "UPLOADING"}]_vars
 
 \* Reported pairs chain up and say the truth.
-Notified == [][st' # st => lastEdge' = <<st, st'>>]_vars
+Notified == [][(loaded /\ st' # st) => lastEdge' = <<st, st'>>]_vars
 
 \* At most one caller is inside a method body.
-Mutex == Cardinality({c \in Callers : pc[c] \in {"body", "cancelwait", "rmfile", "trans"}}) <= 1
-HolderInBody == \A c \in Callers : pc[c] \in {"body", "cancelwait", "rmfile", "trans"} => holder = c
+InBody == {"body", "cancelwait", "rmfile", "trans", "lstwait"}
+Mutex == Cardinality({c \in Callers : pc[c] \in InBody}) <= 1
+HolderInBody == \A c \in Callers : pc[c] \in InBody => holder = c
+
+\* An exception out of a listener (or a cancellation inside one) does not undo the transition:
+\* whoever was told before still knows the truth.
+RaisedKeepsState ==
+  [][\A c \in Callers : (ret[c] = "none" /\ ret'[c] = "raised") => st' = Target(op[c], dir)]_vars
 
 \* A refused request changes nothing.
 RefusalHasNoEffect ==
